@@ -1,14 +1,21 @@
-"""C09, real-time clocks as users of TaskQueue: what the clocks queue are LIBRARY objects (a fresh Function wrapper
-for every plain python function given to sched, Function objects, Routines), keyed in TaskQueue._entry_finder by
-the library's own __hash__/__eq__.  Batches are scheduled with sched_abs at exact (tied) times while main._main_lock
-is held, so the clock threads see each batch atomically and the wake-up ORDER does not depend on machine load;
-only a generous lower bound on progress is waited for.
+"""C09, real-time clocks as users of TaskQueue (SystemClock, TempoClock, AppClock's Scheduler).
 
-in : {'batches': [{'clock': 'system'|'tempo', 'tempo': '2', 'items': [[label, kind, obj, k], ...]}, ...]}
-     kind 'plain' (the python function obj is passed itself: every sched makes a new queue item),
+What the clocks queue are LIBRARY objects (a fresh Function wrapper for every plain python function given to
+sched, Function objects, Routines), keyed in TaskQueue._entry_finder by the library's own __hash__/__eq__.
+A batch is queued while the clock's lock (main._main_lock) is held, so the clock thread sees it atomically;
+with 'past' all its entries are already due when the lock is released (several tasks due in ONE wake cycle).
+Tasks may schedule further tasks DURING their wake-up (clock.sched(delta, g) from inside: before, with or after
+entries that are already due).  Every due time is read back from the clock's own queue right after the
+scheduling call, in the order the additions happen, so the expected order (reference queue fed with these
+additions) does not depend on machine load; only a lower bound on progress is waited for.
+
+in : {'batches': [{'clock': 'system'|'tempo'|'app', 'tempo': '2', 'past': bool, 'inside': bool (app),
+                   'items': [[label, kind, obj, k, nested], ...], 'expect': n}, ...]}
+     kind 'plain' (python function number obj passed itself: every sched makes a new queue item),
           'wrap' (Function object number obj: the same object again = re-add), 'rout' (Routine object number obj);
-     k = time slot (slot width 1/16 s or beat); equal k = tie.
-out: {'out': [{'log': [label, ...], 'complete': bool}, ...]}
+     k = slot (1/16 s or beat; equal k = tie); nested = [[label, delta slots, nested], ...] scheduled by the
+     task while it wakes (plain functions).
+out: {'out': [{'log': [label, ...], 'complete': bool, 'added': [[label, time repr, parent label|None], ...]}, ...]}
 """
 import json, logging, os, sys, threading, time, warnings
 warnings.simplefilter('ignore')
@@ -24,97 +31,98 @@ from sc3.base.stream import Routine
 
 
 def run_batch(b):
-    log = []
-    funcs, wraps, routs = {}, {}, {}
+    log, added = [], []
+    app = b['clock'] == 'app'
+    clock = AppClock if app else SystemClock if b['clock'] == 'system' else TempoClock(float(b.get('tempo', '1')))
+    queue = AppClock._scheduler.queue if app else clock._task_queue
 
-    def func(obj):                         # ONE python function per obj; labels are attached per scheduling
-        if obj not in funcs:
-            cell = {'labels': []}
+    seen = []                                   # entries already accounted for (kept alive: ids are not reused)
+
+    def due(target):
+        """the time of the NEW queue entry made by the scheduling call that just returned (target = the python
+        function given to sched, or the Function / Routine object itself)"""
+        R = type(queue)._REMOVED
+        for e in queue._queue:
+            t = e[2]
+            if t is not R and all(e is not x for x in seen) and (t is target or getattr(t, 'func', None) is target):
+                seen.append(e)
+                return repr(float(e[0]))
+        return None
+
+    def child(spec, parent):
+        label, delta, nested = spec
+        def g():
+            log.append(label)
+            for n in nested:
+                child(n, label)
+        clock.sched(delta / 16, g)              # from inside a wake-up: relative to the task's logical time
+        added.append([label, due(g), parent])
+
+    shared, wraps, routs = {}, {}, {}
+
+    def plain(obj):                             # ONE python function per obj; every sched of it is a new item
+        if obj not in shared:
+            cell = {'pending': []}
             def f():
-                log.append(cell['labels'].pop(0) if cell['labels'] else 'f%s?' % obj)
-            funcs[obj] = (f, cell)
-        return funcs[obj]
-    def make_routine():
-        cell = {'labels': []}
-        def body():
-            log.append(cell['labels'][-1])
-            yield None
-        return Routine(body), cell
-    clock = SystemClock if b['clock'] == 'system' else TempoClock(float(b.get('tempo', '1')))
-    expect = b['expect']
-    try:
-        with main._main_lock:              # the clock thread cannot pop before the whole batch is queued
-            base = (main.current_tt._seconds if clock is SystemClock else clock.beats) + 0.5
-            for label, kind, obj, k in b['items']:
-                t = base + k / 16
-                if kind == 'plain':
-                    f, cell = func(obj)
-                    cell['labels'].append(label)     # popped in wake-up order: valid because slots of one obj increase
-                    clock.sched_abs(t, f)
-                elif kind == 'wrap':
-                    if obj not in wraps:
-                        f, cell = func('w%s' % obj)
-                        wraps[obj] = (Function(f), cell)
-                    w, cell = wraps[obj]
-                    cell['labels'][:] = [label]      # the same object again replaces its pending wake-up
-                    clock.sched_abs(t, w)
-                else:
-                    if obj not in routs:
-                        routs[obj] = make_routine()
-                    r, cell = routs[obj]
-                    cell['labels'][:] = [label]
-                    clock.sched_abs(t, r)
-        deadline = time.time() + 12            # lower bound on progress only
-        while len(log) < expect and time.time() < deadline:
-            time.sleep(0.02)
-        time.sleep(0.15)                       # anything that should NOT wake would have by now (slots are past)
-    finally:
-        if clock is not SystemClock:
-            clock.stop()
-    return {'log': list(log), 'complete': len(log) >= expect}
+                label, nested = cell['pending'].pop(0) if cell['pending'] else ('f%s?' % obj, [])
+                log.append(label)
+                for n in nested:
+                    child(n, label)
+            shared[obj] = (f, cell)
+        return shared[obj]
 
-
-def run_app(b):
-    """AppClock (the non-recursive Scheduler: everything that expired in one tick is popped first, then woken):
-    a batch of sched(delta, f) calls made while the scheduler lock is held -- from outside, or from inside a task
-    running in the AppClock thread -- so that SEVERAL tasks are due at one tick.  AppClock stamps with physical
-    time, so the due times are read back from the queue (under the same lock) and returned."""
-    log, cells, sched_info = [], {}, []
-
-    def make(label):
+    def single(label):
         cell = {'label': label}
         def f():
             log.append(cell['label'])
         return f, cell
 
     def batch():
-        wraps = {}
-        for label, kind, obj, k in b['items']:
-            if kind == 'wrap':                       # the same Function object again: replaces its pending wake-up
+        base = (main.elapsed_time() if app else main.current_tt._seconds if clock is SystemClock else clock.beats)
+        base += -1.0 if b.get('past') else 0.5
+        for label, kind, obj, k, nested in b['items']:
+            t = base + k / 16
+            if kind == 'plain':
+                f, cell = plain(obj)
+                cell['pending'].append((label, nested))   # valid: slots of one obj increase with scheduling order
+                target = f
+            elif kind == 'wrap':
                 if obj not in wraps:
-                    f, cell = make(label)
+                    f, cell = single(label)
                     wraps[obj] = (Function(f), cell)
-                    cells[f] = cell
-                w, cell = wraps[obj]
+                target, cell = wraps[obj]
+                cell['label'] = label                     # the same object again replaces its pending wake-up
+            else:
+                if obj not in routs:
+                    routs[obj] = make_routine(label)
+                target, cell = routs[obj]
                 cell['label'] = label
-                AppClock.sched(k / 16, w)
-            else:                                    # a plain python function: a fresh wrapper, a new item
-                f, cell = make(label)
-                cells[f] = cell
-                AppClock.sched(k / 16, f)
-        for t, item in list(AppClock._scheduler.queue):
-            if item.func in cells:
-                sched_info.append([cells[item.func]['label'], repr(float(t))])
-    if b.get('inside'):
-        AppClock.sched(0, lambda: batch())           # runs in the AppClock thread, inside a tick
-    else:
-        with main._main_lock:                        # AppClock._sched_lock: no tick before the batch is complete
-            batch()
-    deadline = time.time() + 12
-    while len(log) < b['expect'] and time.time() < deadline:
-        time.sleep(0.02)
-    time.sleep(0.15)
-    return {'log': list(log), 'complete': len(log) >= b['expect'], 'queued': sched_info}
+            if app:
+                AppClock.sched(k / 16 - (1.0 if b.get('past') else 0.0), target)   # AppClock stamps with physical time
+            else:
+                clock.sched_abs(t, target)
+            added.append([label, due(target), None])
+
+    def make_routine(label):
+        cell = {'label': label}
+        def body():
+            log.append(cell['label'])
+            yield None
+        return Routine(body), cell
+    try:
+        if app and b.get('inside'):
+            AppClock.sched(0, lambda: batch())            # the batch is queued by a task running in the AppClock thread
+        else:
+            with main._main_lock:                         # the clock thread cannot pop before the batch is complete
+                batch()
+        deadline = time.time() + 12                       # lower bound on progress only
+        while len(log) < b['expect'] and time.time() < deadline:
+            time.sleep(0.02)
+        time.sleep(0.15)
+    finally:
+        if not app and clock is not SystemClock:
+            clock.stop()
+    return {'log': list(log), 'complete': len(log) >= b['expect'], 'added': added}
 
 
 def main_():
@@ -122,7 +130,7 @@ def main_():
     out = []
     for b in spec['batches']:
         try:
-            out.append(run_app(b) if b['clock'] == 'app' else run_batch(b))
+            out.append(run_batch(b))
         except BaseException as e:
             out.append({'error': '%s: %s' % (type(e).__name__, e)})
     json.dump({'out': out}, open(sys.argv[2], 'w'))
